@@ -70,7 +70,7 @@ Sq(x) == x * x
 D2SS(a, b) == Sq(SX[a] - SX[b]) + Sq(SY[a] - SY[b])
 D2ST(a, t) == Sq(SX[a] - TX[t]) + Sq(SY[a] - TY[t])
 
-\* squared distance (x4) between a sample and a grid node; the node whose cell holds the sample
+\* squared distance (x4) between a sample and a grid node; the node whose (centred) cell holds the sample
 D2SG(a, g) == Sq(2 * SX[a] - NodeIX(g) * GDX2) + Sq(2 * SY[a] - NodeIY(g) * GDY2)
 CellOf(a) == CHOOSE g \in Nodes : \A h \in Nodes : D2SG(a, g) <= D2SG(a, h)
 ASSUME \A a \in Ids : \A g, h \in Nodes : g # h /\ D2SG(a, g) <= D2SG(a, h) /\ g = CellOf(a) => D2SG(a, g) < D2SG(a, h)
@@ -106,7 +106,8 @@ Lag(a, b) == CHOOSE k \in 0..NLag : 4 * D2SS(a, b) < Sq((2 * k + 1) * LagW)
                                     /\ (k = 0 \/ 4 * D2SS(a, b) > Sq((2 * k - 1) * LagW))
 
 -----------------------------------------------------------------------------
-(* The three readings of the selection cell that coexist in Db.cpp           *)
+(* The readings of the selection cell that coexist in Db.cpp (a fourth one,   *)
+(* "exactly 1", is IsOne below: Db::getColumn(useSel = TRUE))                 *)
 
 \* Db::getSelection / isActive: undefined -> masked, any other non-zero value -> active
 IsActive(s)     == s.sel \in {"none", "on", "neg"}
